@@ -368,3 +368,14 @@ for al, short, e, props, label in (('DECOMMISSION', 'decom', 'd', ['C04', 'C14']
         ob(name='dtor_is.%s.%s' % (label, part), kind='IS', props=props, unit='dtor_is', harness='h_dtor_is.c', entry='%s_%s' % (e, part), outline={al: short}, defines={'WANT_' + short.upper(): 1},
            enforce='%s__%s' % (short, part), min_reach=1, bound='none: lists of any length (inductive step over the outlined loop of the real function)')
 LEVELS['C04'] = 'proof'; LEVELS['C14'] = 'proof'
+
+UNITS['ract_fc'] = {
+    'opaque': [' get_lock$'], 'dyn_types': [],
+    'roots': {'RUN_ACTIONS': '12call_matcherIFiiESt5tupleIJNS_8wildcardEEEE11run_actionsE', 'CM': r'rec:^call_matcher<int\(int\),std::tuple<wildcard>>$',
+              'LE': r'rec:^list_elem<call_matcher_base<int\(int\)>>$'},
+    'stub_aliases': {'VS_SHB_CAN_BE_CALLED': r'^vs_.*sequence_handler_base13can_be_called', 'VS_SHB_RETIRE': r'^vs_.*sequence_handler_base6retireEv',
+                     'VS_SHB_RETIRE_PRED': r'^vs_.*sequence_handler_base19retire_predecessors', 'VS_SHB_VALIDATE': r'^vs_.*sequence_handler_base8validate'},
+}
+ob(name='run_actions.decision_logic.contract', kind='FC', props=['C01', 'C03', 'C05', 'C07', 'C15', 'C16'], unit='ract_fc', harness='h_ract_fc.c', entry='f_init', outline={'RUN_ACTIONS': 'ract'}, enforce='ract__init', min_reach=5,
+   allow_nobody=['vs_', 'vpx_'], bound='none: every state of an active expectation (free bounds and count), rings of any length in 6 alias shapes; the sequence handler\'s virtual calls are contract-only stubs')
+LEVELS['C01'] = 'proof'; LEVELS['C07'] = 'proof'
